@@ -121,10 +121,10 @@ func init() {
 func init() {
 	register(&checkDef{
 		ID: "C12", Pkg: "clih", Level: "other", NativeCheck: true, UseStubs: true, OnlyPrefix: "C12/",
-		Explanation: "Bounded exhaustive symbolic execution of the real App.Run with --clean (handleClean, clean, runTasks, task.New's output classification, filepath.Join/Abs/Clean, os.RemoveAll on the in-memory file system): one task whose output is a literal, a named variable or a glob, with the output text drawn from every string over {'.','/','o'} up to length 2 plus longer paths inside and outside the project; optionally a second task, a pre-existing cache, a task named clean; cwd in {project root, nested directory, file-system root}. " +
+		Explanation: "Bounded exhaustive symbolic execution of the real App.Run with --clean (handleClean, clean, runTasks, task.New's output classification, filepath.Join/Abs/Clean, os.RemoveAll on the in-memory file system): one task whose output is a literal, a named variable or a glob (five patterns, two of which also match the file named spokfile), with the output text drawn from every string over {'.','/','o'} up to length 2 plus longer paths inside and outside the project; optionally a second task, a pre-existing cache, a task named clean; cwd in {project root, nested directory, file-system root}. " +
 			"On the before/after difference of the sandbox: the spokfile, its directory and everything above are never removed; nothing is created or modified; everything removed is the cache directory or designated by an output; every existing designated path inside the project is removed (files matching an output glob included); with a task named clean spok removes nothing itself and that task's command runs. All variables are choices: complete enumeration inside the bound.",
 		Bounds: func(tier string) string {
-			return "25 output texts x {literal, named} + 3 globs, x second task x pre-existing cache x clean task x 3 working directories (1272 configurations)"
+			return "25 output texts x {literal, named} + 5 globs (two of which also match the spokfile), x second task x pre-existing cache x clean task x 3 working directories"
 		},
 		Outside: []string{
 			"more than two tasks/outputs per kind; symbolic links; permission errors",
